@@ -92,7 +92,7 @@ def _compare(ctx, p, tr2, ids_map=None):
             continue
         m = ids_map[p.ids[i]]
         tcs.append(same_value(tr2.get_time(m), SInt(p.t0[i])))
-        pcs.append(same_value(list(tr2.get_position(m)), [SReal(e) for e in p.pos0[i]]))
+        pcs.append(same_value(list(tr2.get_position(m)), [SReal(z3.ToReal(e) if z3.is_int(e) else e) for e in p.pos0[i]]))
         kcs.append(same_value(tr2.get_track_id(m), SInt(p.tid0[i])))
     ctx.oblige("C14.same_times", And(tcs), "C14")
     ctx.oblige("C14.same_positions", And(pcs), "C14")
